@@ -295,6 +295,8 @@ def check_arguments(arg, parser):
             "coalescent and birth-death tree priors require a time tree: "
             "specify a clock model with --clock"
         )
+    if arg.birth_death == "bdsk" and arg.grid is None:
+        parser.error("bdsk birth-death model requires the grid argument")
     if arg.coalescent in COALESCENT_PIECEWISE:
         piecewise_grid = COALESCENT_PIECEWISE.copy()
         piecewise_grid.remove("skyride")
